@@ -77,6 +77,8 @@ def handleParse (op : String) (args impl : List String) : Option String :=
   match args with
   | [] => none
   | srcTok :: expected =>
+    -- a sentence of the generator outside `Sentence.wf` is a bug of the generator, not a verdict
+    if expected == ["NOT-WF"] then none else
     let src := dec srcTok
     let m := parse src
     let ms := showPM m
